@@ -160,7 +160,7 @@ def string_facts(tier):
 
 
 ADVERSARIAL_TEXT = ["O'Neil (Jr)", "a\\b", ")(", "Q\"uote", "Main St (rear) #2", "x", "Lee-Ann", "", "Very Long Name " * 5,
-                    '"Smith"', "'Smith'", '""', "(Jr)", "[x]", "None", "0", "12  Elm St", "a   b  c", "tab\there", "dot . dot", "UPPER lower", "x-y_z"]
+                    '"Smith"', "'Smith'", '""', "(Jr)", "[x]", "None", "0", "12  Elm St", "a   b  c", "Featherstonehaugh", "Wolfeschlegelstein", "Main Street 1234 Apt", "tab\there", "dot . dot", "UPPER lower", "x-y_z"]
 
 
 def run_fill(year, sol_text, work, tag):
@@ -219,8 +219,16 @@ def fill_facts(tier, seed_):
                 p = scenarios.Profile(rng, year=year, nc=rng.random() < 0.35)
                 if k % 3 == 1:
                     p.text_pool = ADVERSARIAL_TEXT
+                ov = {}
+                if k == 0:
+                    # a plain NC return of somebody with a long last name: the D-400 prints it twice, page 2 in a much narrower box
+                    p = scenarios.Profile(rng, year=year, nc=True, status="Single", dependents=0, itemize=False, sched1_adjust=False, wage_scale=60000, ira=False,
+                                          qualified_div=False, foreign_tax=False, hsa_you=False, hsa_spouse=False, f8606=False, div_heavy=False, dup_w2=False,
+                                          plain_payers=True)
+                    p.n = {"w-2": 1, "1099-int": 0, "1099-div": 0, "1099-r": 0, "1099-g": 0, "1098": 1, "1099-oid": 0}
+                    ov = {"1040.last_name": "Featherstonehaugh", "1040.first_name": "Pat"}
                 request = ["1040"] + (["nc_d-400"] if p.nc else [])
-                tr, res, solver, ans = scenarios.solve_scenario(year, request, p, rng, snap="none")
+                tr, res, solver, ans = scenarios.solve_scenario(year, request, p, rng, snap="none", overrides=ov)
                 if res["abort"] or not res.get("solved"):
                     continue
                 n_solved += 1
@@ -365,7 +373,7 @@ def synthetic_forms():
     from habutax.form import Form, Jurisdiction
     from habutax.fields import StringField, BooleanField, IntegerField, FloatField, EnumField
     import habutax.enum as E
-    floats = [0.0, -0.0, 1.0, -1.0, 0.005, 0.015, 2.675, 1234567.891, -98765.4321, 1e15, 123456789012345.67, 1e20, 1e-7, -1e-7, 0.1 + 0.2, 1 / 3.0, 99999.995]
+    floats = [0.0, -0.0, 1.0, -1.0, 0.005, 0.015, 2.675, 1234567.891, -98765.4321, 1e15, 123456789012345.67, 1e20, 1e-7, -1e-7, 0.1 + 0.2, 1 / 3.0, 99999.995, 1.2345678901234568e16, 9.87654321e20, -3.333333333333333e17, 7.000000000000001e18, 1.7976931348623157e308, 5e-324]
     texts = ["", "x", "two words", "  padded both sides  ", "line one\nline two", "first\nsecond\nthird", "tab\there", "trailing space ",
              "UPPER lower", "semi;colon", "equals = sign", "colon: here", "[brackets]", "quote \" ' ", "# not a comment", "a\n\nb", "O'Neil (Jr) \\ x",
              '"quoted"', "'quoted'", '""', "''", '"open', 'close"', "`tick`", "(paren)", "[x]", "{x}", "<x>", "%(x)s", "100%", "50%% off", "%", "$HOME", "~", "two  blanks", "three   blanks  and two", "\\", "None", "True", "0", "1.0", "nan"]
